@@ -96,6 +96,35 @@ def evalAddRace (outs : List String) (storeOk : String → Nat → Nat → Optio
   | some s, _, _, _, _, _, _, _, _, _, _ => .prop "c07_state_finished" s!"addrace start={s}"
   | _, _, _, _, _, _, _, _, _, _, _ => .bad "addrace fields"
 
+/-- an equivocating child of the real header h-1 held in bifurcation while the real headers arrive: whatever wins, the Store is
+    one chain (every stored header names the stored header below it as its parent), gap-free -/
+def evalForkRace (outs : List String) : Verdict :=
+  match kv? outs "start", kvNat? outs "inbif", kv? outs "fork", kv? outs "forkstored", kvNat? outs "linked", kvNat? outs "head", kvNat? outs "tail", kv? outs "stored" with
+  | some "ok", some inbif, some fork, some fs, some linked, some head, some tail, some stored =>
+    if inbif != 1 then .bad "forkrace: the bifurcation was not reached" else
+    if fork == "hang" then .prop "c03_invalid_gossip_refused" "the held candidate never got a verdict" else
+    if linked != 1 then .prop "c03_one_chain" s!"a stored header does not name the stored header below it as its parent (fork verdict={fork}, fork {fs}, head={head})" else
+    if fork == "refuse" && fs == "stored" then .prop "c03_invalid_gossip_refused" "the fork header was refused and stored" else
+    let cs := stored.toList
+    if !(List.range cs.length).all (fun h => (cs.getD h 'N' != 'N') == (tail ≤ h && h ≤ head && h ≥ 1)) then .prop "c03_one_contiguous_run" stored else
+    .ok s!"forkrace:{fork}"
+  | some s, _, _, _, _, _, _, _ => .prop "c07_state_finished" s!"forkrace start={s}"
+  | _, _, _, _, _, _, _, _ => .bad "forkrace fields"
+
+/-- the first read of the Syncer's cached store head racing an adjacent gossip head: a later caller never gets less -/
+def evalColdStart (ins outs : List String) : Verdict :=
+  match kvNat? ins "store", kv? outs "paused", kv? outs "arrive", kv? outs "ha", kv? outs "hb", kv? outs "hc" with
+  | some st, some paused, some arr, some ha, some hb, some hc =>
+    if paused != "yes" then .bad "coldstart: the schedule was not reached" else
+    if arr != "ok" then .prop "c03_valid_gossip_accepted" s!"the adjacent head was refused" else
+    match hb.toNat?, hc.toNat? with
+    | some vb, some vc =>
+      if vc < vb then .prop "c19_monotone" s!"Head() returned {vb}, and to a later caller {vc} (the paused first caller got {ha})" else
+      if vb != st + 1 then .prop "c19_subjective_head_is_newest" s!"hb={hb} after header {st + 1} was stored" else
+      if ha == "hang" || ha == "err" then .prop "c19_head_result" s!"the paused caller got {ha}" else .ok "coldstart"
+    | _, _ => .prop "c19_head_result" s!"hb={hb} hc={hc}"
+  | _, _, _, _, _, _ => .bad "coldstart fields"
+
 /-- caller A of Head() is stopped between its store-head check and `pending.Add(a)`; B learns b > a, the loop syncs; A goes
     on; C asks again: what C gets is not below what B got, and the model's subjective head agrees -/
 def evalStalePending (ins outs : List String) : Verdict :=
